@@ -320,6 +320,8 @@ class Interp:
         self.branch_oracle = branch_oracle
         self.bool_inputs = set()      # names of boolean inputs (flags) met so far; paths.explore enumerates them
         self.path_oracle = None
+        self.clock = 0                # monotonic stamp shared by effects, loops and notes (for 'before / after' rules)
+        self.alias_records = {}       # record name -> value a reference declaration of that type is bound to
         self.on_call = on_call    # hook(callee, node, interp) -> value or NotImplemented
         self.depth = 0
         self.lambdas = {}
@@ -800,7 +802,8 @@ class Interp:
         if ty.get("c") == "eigen":
             if len(args) == 1:
                 v = self.ev(args[0], env)
-                if isinstance(v, sp.Basic) and ty.get("rows") == -1:
+                at = (args[0].get("t") or {}).get("c")
+                if isinstance(v, sp.Basic) and ty.get("rows") == -1 and at not in ("eigen",):
                     cont = self.make_value("local", ty)
                     cont.size = v
                     return cont
@@ -971,7 +974,11 @@ class Interp:
         lam, spec, _ = self.F.lambda_by_fid[fid]
         lv = self.load(self.evl(e["obj"], env)) if "obj" in e else None
         cap_env = lv[2] if isinstance(lv, tuple) and lv[0] == "lambda" else env
-        env2 = dict(cap_env)
+        shared = lam.get("default") == "ref"
+        # [&] callables work on the enclosing scope itself (declaration ids are unique, so sharing the table is exact);
+        # others get a copy, with explicitly by-reference captures written back afterwards
+        env2 = cap_env if shared else dict(cap_env)
+        before = None if shared else dict(cap_env)
         for p, a in zip(spec["params"], e.get("args", [])):
             env2[p["id"]] = self.bind_param(p, a, env)
         saved_this = self.this_obj
@@ -984,15 +991,14 @@ class Interp:
             self.depth -= 1
             self.this_obj = saved_this
         # scalars captured by reference and assigned inside the callable keep their new value in the enclosing scope
-        pids = {p["id"] for p in spec["params"]}
-        byref_all = lam.get("default") == "ref"
-        byref = {c_.get("id") for c_ in lam.get("captures", []) if c_.get("mode") == "ref"}
-        bycopy = {c_.get("id") for c_ in lam.get("captures", []) if c_.get("mode") == "copy"}
-        for k_, v_ in env2.items():
-            if k_ in pids or k_ not in cap_env or k_ in bycopy:
-                continue
-            if (byref_all or k_ in byref) and cap_env[k_] is not v_ and not isinstance(cap_env[k_], Ref):
-                cap_env[k_] = v_
+        if not shared:
+            pids = {p["id"] for p in spec["params"]}
+            byref = {c_.get("id") for c_ in lam.get("captures", []) if c_.get("mode") == "ref"}
+            for k_, v_ in env2.items():
+                if k_ in pids or k_ not in cap_env or k_ not in byref:
+                    continue
+                if v_ is not before.get(k_) and not isinstance(cap_env[k_], Ref):
+                    cap_env[k_] = v_
         return r
 
     def run_body(self, f, env):
@@ -1024,6 +1030,16 @@ class Interp:
             if not args and op == "-":
                 return self.neg(a)
             return self.arith(op, a, self.ev(args[0], env), e)
+        if op in ("+=", "-=", "*=", "/="):
+            tgt = self.load(objr) if isinstance(objr, Ref) and objr.kind in ("var", "field") else objr
+            if isinstance(tgt, Container):
+                # whole-array accumulation  A op= <expression over whole arrays>: element i of the new generation is a
+                # function of element i of the operands; the summaries keep the event, not the element-wise formula
+                srcs = sorted({n_.get("field") or n_.get("name") for n_ in walk(args[0]) if n_.get("k") in ("mem", "var") and (n_.get("t") or {}).get("c") == "eigen"})
+                self.record(tgt.name, ("*",), op, ("whole", tuple(srcs), pp(args[0])[:120], self.whole_terms(args[0], env)), e)
+                self.log_event("read", tgt, None)
+                tgt.bump()
+                return objr
         if op in ("=", "+=", "-=", "*=", "/="):
             v = self.ev(args[0], env)
             if op == "=":
@@ -1097,6 +1113,41 @@ class Interp:
         if nm == "cols":
             return Integer(self.dim() or 0)
         raise Unsupported("Eigen member %s (line %s): %s" % (nm, e.get("line"), pp(e)[:80]))
+
+    def whole_terms(self, e, env):
+        """A whole-array right-hand side as a list of (scale, source array generation, first row, row count or None):
+        sums of (scalar *) array / block of rows; None when the expression has another shape."""
+        try:
+            v = self.evl(e, env)
+        except Unsupported:
+            v = None
+        if isinstance(v, Ref) and v.kind in ("var", "field"):
+            v = self.load(v)
+        if isinstance(v, Container):
+            return [(Integer(1), v.tag(), Integer(0), None)]
+        if isinstance(v, Ref) and v.kind in ("rows", "rowrange"):
+            return [(Integer(1), v.cont.tag(), sp.sympify(v.start), sp.sympify(v.count))]
+        x = e
+        while isinstance(x, dict) and x.get("k") in ("cast", "paren") or (isinstance(x, dict) and x.get("k") == "ctor" and len(x.get("args", [])) == 1):
+            x = x.get("e") if x.get("k") != "ctor" else x["args"][0]
+        if isinstance(x, dict) and x.get("k") == "call":
+            c = callee(x)
+            ops = ([x["obj"]] if "obj" in x else []) + list(x.get("args", []))
+            if c.get("op") == "*" and len(ops) == 2:
+                for a, b in ((ops[0], ops[1]), (ops[1], ops[0])):
+                    try:
+                        sc = self.ev(a, env)
+                    except Unsupported:
+                        continue
+                    if isinstance(sc, sp.Basic):
+                        t = self.whole_terms(b, env)
+                        if t is not None:
+                            return [(sp.expand(sc * k_), tag, st, cnt) for k_, tag, st, cnt in t]
+            if c.get("op") in ("+", "-") and len(ops) == 2:
+                a, b = self.whole_terms(ops[0], env), self.whole_terms(ops[1], env)
+                if a is not None and b is not None:
+                    return a + [((k_ if c["op"] == "+" else -k_), tag, st, cnt) for k_, tag, st, cnt in b]
+        return None
 
     def zero_of(self, ty):
         v = self.make_value("zero", ty, symbolic=False)
@@ -1388,8 +1439,13 @@ class Interp:
         raise Unsupported("std call %s (line %s): %s" % (nm, e.get("line"), pp(e)[:80]))
 
     # -- assignment / effects ------------------------------------------------------
+    def tick(self):
+        self.clock += 1
+        return self.clock
+
     def record(self, target, key, op, value, node, delta=None):
         eff = Effect(target, key, op, value, list(self.guards), node.get("line") if isinstance(node, dict) else None, delta)
+        eff.seq = self.tick()
         if self.tracing:
             self.trace_stack[-1].append({"type": "effect", "cont": target, "key": tuple(key), "op": op, "value": value if op in ("resize", "=") and isinstance(value, (list, tuple)) else None,
                                          "iter_guards": list(self.iter_guards), "line": eff.line,
@@ -1455,6 +1511,8 @@ class Interp:
             key = (r.idx, r.slot) if r.cont.slots > 1 else (r.idx,)
             if isinstance(v, BlockVec) and v.r == 1:
                 v = v.rows[0]
+            if isinstance(v, sp.Basic) and getattr(v, "is_Function", False):
+                v = Vec.atom(("@", v))           # a vector produced by an opaque (user) function
             if not isinstance(v, Vec):
                 raise Unsupported("row assigned from %s" % type(v).__name__)
             r.cont.write(key, v)
@@ -1546,6 +1604,10 @@ class Interp:
         self.decl_depth[s["id"]] = len(self.loop_stack)
         if init is None:
             env[s["id"]] = self.make_value(s["name"], ty, symbolic=False)
+            return
+        if s.get("bind") == "alias" and ty.get("c") == "record" and ty.get("n") in self.alias_records:
+            # a reference to an object of a record the analysis stands in for (e.g. "the workspace in use")
+            env[s["id"]] = self.alias_records[ty["n"]]
             return
         if s.get("bind") == "alias" or (ty.get("c") == "eigen" and ty.get("tmpl") in ("Block", "VectorBlock", "Transpose", "Ref", "Map")):
             r = self.evl(init, env)
@@ -1709,6 +1771,7 @@ class Interp:
             is_comp = True
         sym = S(name if not self.loop_stack or is_comp else name + "_%d" % len(self.loop_stack), integer=True, nonnegative=True)
         summ = LoopSummary(sym, lo, cond, step, s.get("line"))
+        summ.pos = self.tick()       # position in the global order of effects, loops and notes
         env2 = env  # C++ scoping is irrelevant for single assignment ids
         env2[init["id"]] = sym
         frame = {"summary": summ, "comp_var": sym if is_comp else None, "var": sym}
@@ -1918,6 +1981,7 @@ class Interp:
         sym_ = S(name if not self.loop_stack else name + "_%d" % len(self.loop_stack), integer=True, nonnegative=True)
         hi = cont.size if cont.size is not None else S(cont.name + ".size", integer=True, nonnegative=True)
         summ = LoopSummary(sym_, Integer(0), None, 1, s.get("line"))
+        summ.pos = self.tick()
         summ.hi, summ.cond_op, summ.is_comp, summ.name, summ.over = hi, "<", False, name, cont.name
         frame = {"summary": summ, "comp_var": None, "var": sym_}
         for c_ in self.all_containers(env):
